@@ -11,6 +11,7 @@ import (
 	"verifharness/props/c02"
 	"verifharness/props/c04"
 	"verifharness/props/c06"
+	"verifharness/props/c07"
 	"verifharness/props/c08"
 	"verifharness/props/c09"
 	"verifharness/props/c10"
@@ -29,6 +30,7 @@ var checks = map[string]func(*core.Ctx) int{
 	"C02":   c02.Run,
 	"C04":   c04.Run,
 	"C06":   c06.Run,
+	"C07":   c07.Run,
 	"C08":   c08.Run,
 	"C09":   c09.Run,
 	"C10":   c10.Run,
